@@ -191,6 +191,9 @@ func (w *world) checkQuorum(r *hx.Run, what string, spec *blockSpec, ledgerSet s
 	if spec.height == 0 {
 		return
 	}
+	if spec.badPayload {
+		r.Viol("C14:"+what+"-with-undecodable-payload-accepted", fmt.Sprintf("%s %s (height %d) was accepted although its consensus payload does not decode: the configuration it announces is undefined", what, spec.name, spec.height))
+	}
 	set, ok := w.forceAfter(hexOf(spec.prev))
 	if !ok {
 		set = parseSet(ledgerSet)
@@ -226,6 +229,9 @@ func (w *world) verifyHeaderOp(r *hx.Run, spec *blockSpec, setTok string) string
 	hh := w.main.store.GetCurrentHeaderHeight()
 	out, err := w.main.store.VerifVerifyHeader(blk.Header, peers)
 	res := peersToken(out)
+	if err == nil && spec.height != 0 && spec.badPayload {
+		r.Viol("C14:header-with-undecodable-payload-accepted", fmt.Sprintf("verifyHeader accepted %s although its consensus payload does not decode: the configuration it announces is undefined", spec.name))
+	}
 	if err == nil && spec.height != 0 {
 		m := refThreshold(len(peers), w.net, hh)
 		if got := validSigners(spec, set); got < m {
